@@ -1,5 +1,5 @@
 (* C19 -- tools cannot be steered outside the intended files.  ONLY statements closed by `exact`. *)
-From OV Require Import Base.Strs Path.FsTree Path.Realpath Path.PathCheck Path.PathPins Gen.PathsGen.
+From OV Require Import Base.Strs Path.FsTree Path.Realpath Path.PyRealpath Path.NoLinks Path.PathCheck Path.PathPins Gen.PathsGen.
 
 (* the three validators of the current source have all three checks (orders: translator) and the lstat-only
    link test `current.is_symlink()` (repo fix 039cc0c; which test the source uses is read by the translator) *)
@@ -121,7 +121,93 @@ Theorem C19_frozen_confined : forall (H : str -> str) fs cache ref p, resolve_fr
                 p_read fs p = Some b /\ H b = map to_lower d.
 Proof. exact frozen_confined. Qed.
 
-(* source URIs *)
-Theorem C19_source_uri_confined : forall fs base uri p, validate_uri fs base uri = UOk p ->
-  exists b rest, resolve fs base = ResOk b /\ p = b ++ rest /\ real fs p.
+(* source URIs.  validate_source_uri / _check_single_snapshot: which resolution step the source performs is read by the
+   translator (mode 0 resolve() alone, 1 + os.path.realpath, 2 the helper _resolve_without_links; catches = RuntimeError is a
+   refusal).  The current source uses the helper at both call sites. *)
+Theorem C19_pin_uri_resolution_steps :
+  paths_uri_resolution = 2%N /\ paths_uri_catches_runtime = true /\
+  paths_stale_resolution = 2%N /\ paths_stale_catches_runtime = true.
+Proof. exact pin_uri_resolution_steps. Qed.
+
+(* UNCONDITIONAL, over ANY resolution function R (nothing assumed about it): what the link-free helper lets through is
+   below the base, has no link in any component (the path is real), and no prefix is a link for the kernel's lstat *)
+Theorem C19_source_uri_confined : forall (R : node -> path -> option path) fs b uri p, validate_uri_any R fs b uri = UOk p ->
+  (exists rest, p = b ++ rest) /\ real fs p /\ forall q, In q (inits1 p) -> p_is_symlink fs q = false.
+Proof. exact source_uri_confined_any. Qed.
+Theorem C19_staleness_confined : forall (R : node -> path -> option path) fs b root uri p, stale_uri_any R fs b root uri = SHashed p ->
+  (exists rest, p = root ++ rest) /\ real fs p /\ forall q, In q (inits1 p) -> p_is_symlink fs q = false.
+Proof. exact staleness_confined_any. Qed.
+(* the lemma behind it: every prefix passes `not is_symlink()` (lstat) ==> no prefix is a link in the tree *)
+Theorem C19_nolinks_real : forall fs p, clean p -> nolinks fs p = true -> real fs p.
+Proof. exact nolinks_real. Qed.
+
+(* the same for the model the correspondence runs (CPython's realpath, PyRealpath.v) with the generated flags:
+   the text's statement, no side condition *)
+Definition C19_uri_full : Prop := uri_full paths_uri_resolution paths_uri_catches_runtime.
+Theorem C19_uri_full_holds : C19_uri_full.
+Proof. exact uri_full_src. Qed.
+Theorem C19_staleness_src_real : forall fs base root uri p, stale_uri_src fs base root uri = SHashed p ->
+  real fs p /\ forall q, In q (inits1 p) -> p_is_symlink fs q = false.
+Proof. exact stale_src_real. Qed.
+
+(* for every mode: accepted => component-wise below the resolved base; complete last resolution => real *)
+Theorem C19_source_uri_confined_modes : forall mode catches fs base uri p, validate_uri mode catches fs base uri = UOk p ->
+  exists b c rest, resolve_py fs base = PRok b c /\ p = b ++ rest /\
+                   (uri_complete mode catches fs base uri = true -> real fs p).
 Proof. exact source_uri_confined. Qed.
+Theorem C19_stale_confined_modes : forall mode catches fs base root uri p, stale_uri mode catches fs base root uri = SHashed p ->
+  exists rt c rest, resolve_py fs root = PRok rt c /\ p = rt ++ rest.
+Proof. exact stale_confined. Qed.
+
+(* a complete realpath (CPython algorithm, seen-table included) returns a path none of whose prefixes is a link *)
+Theorem C19_pyrealpath_complete_real : forall fs tail q, pyrealpath fs tail = POk q true -> real fs q /\ clean q.
+Proof. exact pyrealpath_complete_real. Qed.
+
+(* regression for ea316ac + 3bf4eb7, by computation on the generated flags: cyclic link + `..` + link to an outside file
+   (2-link tree), the same through a third link (3-link tree), a bare cycle -- refused by both entry points *)
+Theorem C19_uri_cycles_refused :
+  validate_uri_src w_fs_cycle [w_sb] w_uri_cycle = URefused /\
+  validate_uri_src w_fs_cycle [w_sb] w_uri_cycle2 = URefused /\
+  validate_uri_src w_fs_cycle [w_sb] [108;111;111;112;46;109;100]%N = URefused /\
+  stale_uri_src w_fs_cycle [w_sb] [w_sb] w_uri_cycle = SError /\
+  stale_uri_src w_fs_cycle [w_sb] [w_sb] w_uri_cycle2 = SError /\
+  stale_uri_src w_fs_cycle [w_sb] [w_sb] [108;111;111;112;46;109;100]%N = SError.
+Proof. exact src_refuses_cycles. Qed.
+
+(* statements about the PRE-FIX resolutions (closed terms, independent of the source): the text's statement was false of
+   the one-step resolution (before ea316ac) and of the two-step resolution (ea316ac alone) *)
+Theorem C19_one_step_was_wrong : ~ uri_full 0 false.
+Proof. exact uri_full_refuted_one_step. Qed.
+Theorem C19_two_step_was_wrong : ~ uri_full 1 true.
+Proof. exact two_step_was_wrong. Qed.
+Theorem C19_uri_one_step_accepted_cycle_dotdot :
+  validate_uri 0 false w_fs_cycle [w_sb] w_uri_cycle = UOk [w_sb; w_lf] /\
+  uri_complete 0 false w_fs_cycle [w_sb] w_uri_cycle = false /\
+  is_link_o (raw w_fs_cycle [w_sb; w_lf]) = true /\
+  kstat w_fs_cycle [w_sb; w_lf] = KFound [w_out; [115;101;99;114;101;116;46;109;100]%N] (NFile [83]%N).
+Proof. exact one_step_accepts_cycle_dotdot. Qed.
+Theorem C19_uri_two_step_accepted_cycle_via_link :
+  validate_uri 1 true w_fs_cycle [w_sb] w_uri_cycle2 = UOk [w_sb; w_lf] /\
+  uri_complete 1 true w_fs_cycle [w_sb] w_uri_cycle2 = false /\
+  is_link_o (raw w_fs_cycle [w_sb; w_lf]) = true.
+Proof. exact two_step_accepts_cycle_via_link. Qed.
+Theorem C19_link_free_refuses_cycles :
+  validate_uri 2 true w_fs_cycle [w_sb] w_uri_cycle = URefused /\
+  validate_uri 2 true w_fs_cycle [w_sb] w_uri_cycle2 = URefused /\
+  validate_uri 2 true w_fs_cycle [w_sb] [107;50]%N = URefused /\
+  stale_uri 2 true w_fs_cycle [w_sb] [w_sb] w_uri_cycle = SError /\
+  stale_uri 2 true w_fs_cycle [w_sb] [w_sb] w_uri_cycle2 = SError /\
+  stale_uri 2 true w_fs_cycle [w_sb] [w_sb] [108;111;111;112;46;109;100]%N = SError /\
+  stale_uri 0 false w_fs_cycle [w_sb] [w_sb] w_uri_cycle = SHashed [w_sb; w_lf] /\
+  stale_uri 0 false w_fs_cycle [w_sb] [w_sb] [108;111;111;112;46;109;100]%N = SRaise.
+Proof. exact link_free_refuses_cycles. Qed.
+Theorem C19_uri_complete_nonvacuous :
+  validate_uri 1 true w_fs_live [w_sb] [100;47;46;46;47;100]%N = UOk [w_sb; [100]%N] /\
+  uri_complete 1 true w_fs_live [w_sb] [100;47;46;46;47;100]%N = true /\
+  validate_uri 1 true w_fs_live [w_sb] [108;110;107;100]%N = URefused.
+Proof. exact uri_complete_nonvacuous. Qed.
+(* the link-free mode is not vacuous either: a plain file below a directory is accepted *)
+Theorem C19_link_free_nonvacuous :
+  validate_uri_src w_fs_live [w_sb] [100;47;46;46;47;100]%N = UOk [w_sb; [100]%N] /\
+  validate_uri_src w_fs_live [w_sb] [108;110;107;100]%N = URefused.
+Proof. exact src_link_free_nonvacuous. Qed.
